@@ -102,7 +102,7 @@ class RefusingProbeSolver(ProbeSolver):
 '''
 
 ALPHABET = ["A", "B", "P", "P2", "P0", "O", "O2", "O0", "R", "S", "SA", "Q", "V", "U"]
-NAMES = {"A": "assert a", "B": "assert b", "P": "push", "P2": "push 2", "P0": "push 0", "O": "pop", "O2": "pop 2", "O0": "pop 0",
+NAMES = {"P2K": "push(levels=2)", "O2K": "pop(levels=2)", "O1K": "pop(levels=1)", "A": "assert a", "B": "assert b", "P": "push", "P2": "push 2", "P0": "push 0", "O": "pop", "O2": "pop 2", "O0": "pop 0",
          "R": "reset",
          "S": "solve", "SA": "solve [c]", "Q": "is_sat c", "V": "is_valid c", "U": "is_unsat c"}
 
@@ -146,6 +146,11 @@ def sequences(max_len):
                         seq = ("A", a_, b_, c_, d_)
                         if legal(seq) and seq not in seen and any(x in ("S", "SA", "Q", "V", "U") for x in seq):
                             out.append(seq)
+    # the level count given by keyword, right after a one-shot query (whose pop is still pending)
+    for seq in (("P2K", "A", "Q", "O2K", "S"), ("A", "P", "B", "P", "A", "Q", "O2K", "S"), ("P2K", "Q", "O2K", "B", "S"), ("P", "A", "Q", "O1K", "S"),
+                ("P2K", "A", "O2K", "S"), ("P", "P", "B", "U", "O2K", "Q"), ("P2K", "V", "O1K", "A", "O1K", "S")):
+        if seq not in out:
+            out.append(seq)
     return out
 
 
@@ -176,14 +181,20 @@ def _run_chunk(job):
                         fm = a if x == "A" else b
                         it.call(it.getattr(solver, "add_assertion"), [fm])
                         ref[-1].append(fm)
-                    elif x in ("P", "P2", "P0"):
-                        k = {"P": 1, "P2": 2, "P0": 0}[x]
-                        it.call(it.getattr(solver, "push"), [k] if k != 1 else [])
+                    elif x in ("P", "P2", "P0", "P2K"):
+                        k = {"P": 1, "P2": 2, "P0": 0, "P2K": 2}[x]
+                        if x == "P2K":
+                            it.call(it.getattr(solver, "push"), [], {"levels": 2})
+                        else:
+                            it.call(it.getattr(solver, "push"), [k] if k != 1 else [])
                         for _ in range(k):
                             ref.append([])
-                    elif x in ("O", "O2", "O0"):
-                        k = {"O": 1, "O2": 2, "O0": 0}[x]
-                        it.call(it.getattr(solver, "pop"), [k] if k != 1 else [])
+                    elif x in ("O", "O2", "O0", "O2K", "O1K"):
+                        k = {"O": 1, "O2": 2, "O0": 0, "O2K": 2, "O1K": 1}[x]
+                        if x in ("O2K", "O1K"):
+                            it.call(it.getattr(solver, "pop"), [], {"levels": k})
+                        else:
+                            it.call(it.getattr(solver, "pop"), [k] if k != 1 else [])
                         for _ in range(k):
                             ref.pop()
                     elif x == "R":
@@ -596,7 +607,7 @@ class SolverWorld(World):
 
 
 T_ALPHABET = ["AX", "AY", "AU", "P", "P2", "P0", "O", "O2", "O0", "R", "S", "Q", "M", "GV"]
-T_NAMES = {"AV": "assert arrs = [0][1 := xv] (xv occurs only as a stored value)", "AP": "assert pal[x] != pal[y] (sort W2 occurs only inside the sort of pal)", "AQO": "assert forall x'. exists idx[0], let. x' < idx[0] < let (bound names that need quoting)", "AQ": "assert forall q1 q2: V. q1=q2 (sort V occurs in the binder only)", "AX": "assert x<3", "AY": "assert a|x<y", "AU": "assert e1=e2 (sort U)", "P": "push", "P2": "push 2", "P0": "push 0",
+T_NAMES = {"O2K": "pop(levels=2)", "AV": "assert arrs = [0][1 := xv] (xv occurs only as a stored value)", "AP": "assert pal[x] != pal[y] (sort W2 occurs only inside the sort of pal)", "AQO": "assert forall x'. exists idx[0], let. x' < idx[0] < let (bound names that need quoting)", "AQ": "assert forall q1 q2: V. q1=q2 (sort V occurs in the binder only)", "AX": "assert x<3", "AY": "assert a|x<y", "AU": "assert e1=e2 (sort U)", "P": "push", "P2": "push 2", "P0": "push 0",
            "O": "pop", "O0": "pop 0", "O2": "pop 2", "R": "reset_assertions", "S": "solve", "Q": "is_sat(b&x<z)", "M": "get_model", "GV": "get_value(x)"}
 
 
@@ -624,8 +635,8 @@ def t_legal(seq):
             depth += 1
         elif x == "P2":
             depth += 2
-        elif x in ("O", "O2", "O0"):
-            k = {"O": 1, "O2": 2, "O0": 0}[x]
+        elif x in ("O", "O2", "O0", "O2K"):
+            k = {"O": 1, "O2": 2, "O0": 0, "O2K": 2}[x]
             if depth < k:
                 return False
             depth -= k
@@ -667,6 +678,7 @@ def t_sequences(max_len):
                     ("AQ", "S"), ("AX", "AQ", "S", "M"), ("P", "AQ", "O", "AQ", "S"), ("AQ", "R", "AQ", "S"), ("AX", "S", "AQ", "Q"),
                     ("P", "AQ", "S", "O", "AX", "S"),
                     ("AQO", "S"), ("AX", "AQO", "S", "M"), ("P", "AQO", "O", "AQO", "S"), ("AQO", "Q"),
+                    ("P2", "AX", "Q", "O2K", "S"), ("AY", "P", "AX", "P", "AU", "Q", "O2K", "AX", "S"), ("P2", "AX", "O2K", "AX", "S", "M"),
                     ("AX", "S", "M", "S", "M"), ("AY", "S", "M", "GV", "S", "GV", "M"), ("AX", "Q", "M", "AY", "S", "M"),
                     ("AV", "S"), ("P", "AV", "O", "AV", "S"), ("AX", "AV", "Q"), ("AP", "S"), ("P", "AP", "S", "O", "AP", "S"), ("AY", "AP", "Q"),
                     ("P", "AV", "AP", "O", "AP", "AV", "S")):
@@ -744,9 +756,12 @@ def _text_chunk(seqs):
                         it.call(it.getattr(solver, "push"), [k] if k != 1 else [])
                         for _ in range(k):
                             ref.append([])
-                    elif st in ("O", "O2", "O0"):
-                        k = {"O": 1, "O2": 2, "O0": 0}[st]
-                        it.call(it.getattr(solver, "pop"), [k] if k != 1 else [])
+                    elif st in ("O", "O2", "O0", "O2K"):
+                        k = {"O": 1, "O2": 2, "O0": 0, "O2K": 2}[st]
+                        if st == "O2K":
+                            it.call(it.getattr(solver, "pop"), [], {"levels": 2})
+                        else:
+                            it.call(it.getattr(solver, "pop"), [k] if k != 1 else [])
                         for _ in range(k):
                             ref.pop()
                     elif st == "R":
